@@ -98,6 +98,14 @@ def main(argv):
     cov = LineCoverage(common.resolve_anchors(getattr(mod, 'ANCHORS', [])))
     cov.start()
     crashed = None
+
+    def process_state():
+        # process-wide settings that decide how later numerical code behaves; the harness only ever changes them inside
+        # context managers, so whatever differs at the end was left behind by the code under test
+        import sys as _sys
+        return {'np.geterr()': dict(np.geterr()), 'np.geterrcall()': repr(np.geterrcall()), 'np.get_printoptions()': {k: repr(v) for k, v in np.get_printoptions().items()},
+                'sys.getrecursionlimit()': _sys.getrecursionlimit()}
+    state0 = process_state()
     try:
         if replayfile:
             case = json.load(open(replayfile))
@@ -126,6 +134,10 @@ def main(argv):
             crashed = text
     finally:
         cov.stop()
+    state1 = process_state()
+    if state1 != state0 and crashed is None:
+        changed = {k: (state0[k], state1[k]) for k in state0 if state0[k] != state1[k]}
+        ctx.violation('process-wide-state-changed', f'after the workload, process-wide settings differ from what they were before it: {changed} - the next call in this process behaves differently', {'changed': {k: [repr(a), repr(b)] for k, (a, b) in changed.items()}})
     res = ctx.result()
     res['anchor_lines_hit'] = cov.report()
     res['crashed'] = crashed
